@@ -176,10 +176,11 @@ fn gen_adjust_x_for_upper_boundary(
         quote! { x }
     } else {
         let upper_value = &upper_boundary.value;
-        let correction_delta = correction_delta_for_float_type(float_type);
+        let next_down = gen_next_down(float_type, upper_value);
         quote! {
             if x >= #upper_value {
-                x - #correction_delta
+                // Step to the closest representable value below the exclusive upper boundary.
+                #next_down
             } else {
                 x
             }
@@ -195,12 +196,11 @@ fn gen_adjust_x_for_lower_boundary(
         quote! { x }
     } else {
         let lower_value = &lower_boundary.value;
-        let correction_delta = correction_delta_for_float_type(float_type);
+        let next_up = gen_next_up(float_type, lower_value);
         quote! {
             if x <= #lower_value {
-                // Since there is no upper boundary, we are free to add any positive value here
-                // to adjust so we can satisfy the exclusive lower boundary.
-                x + #correction_delta
+                // Step to the closest representable value above the exclusive lower boundary.
+                #next_up
             } else {
                 x
             }
@@ -208,18 +208,41 @@ fn gen_adjust_x_for_lower_boundary(
     }
 }
 
-/// A tiny value that is used to correct the value to satisfy the exclusive boundaries if
-/// necessary.
-/// For example, if the constraint is `greater = 0.0`, then and we obtain exactly `0.0` when
-/// generating a pseudo-random value, then we need to add a tiny value to it to make it
-/// satisfy `x > 0.0` check.
+/// Generates an expression that evaluates to the closest representable float above `value`.
 ///
-/// Unfortunately things like `f32::EPSILON` or `f64::EPSILON` are not suitable for this purpose.
-/// The constants are found experimentally.
-fn correction_delta_for_float_type(float_type: &FloatInnerType) -> TokenStream {
-    match float_type {
-        FloatInnerType::F32 => quote!(0.000_002),
-        FloatInnerType::F64 => quote!(0.000_000_000_000_004),
+/// A fixed correction delta cannot be used for this purpose: for boundaries of a bigger magnitude
+/// (e.g. `greater = 100.0`) a tiny delta is absorbed by rounding and the value stays on the boundary.
+/// `f32::next_up()` / `f64::next_up()` are not available on older compilers, so the step is done on the
+/// bit representation.
+fn gen_next_up(float_type: &FloatInnerType, value: &TokenStream) -> TokenStream {
+    quote! {
+        {
+            let boundary: #float_type = #value;
+            if boundary == 0.0 {
+                #float_type::from_bits(1)
+            } else if boundary > 0.0 {
+                #float_type::from_bits(boundary.to_bits() + 1)
+            } else {
+                #float_type::from_bits(boundary.to_bits() - 1)
+            }
+        }
+    }
+}
+
+/// Generates an expression that evaluates to the closest representable float below `value`.
+/// See `gen_next_up()`.
+fn gen_next_down(float_type: &FloatInnerType, value: &TokenStream) -> TokenStream {
+    quote! {
+        {
+            let boundary: #float_type = #value;
+            if boundary == 0.0 {
+                -#float_type::from_bits(1)
+            } else if boundary > 0.0 {
+                #float_type::from_bits(boundary.to_bits() - 1)
+            } else {
+                #float_type::from_bits(boundary.to_bits() + 1)
+            }
+        }
     }
 }
 
